@@ -1294,6 +1294,56 @@ val sig_string : msgsig -> byte list
 
 val obs_msgsig : (msgsig * err) option -> z list
 
+val sigIPStartF : n
+
+val sigIPEndF : n
+
+val sigIPMiddleF : n
+
+val sigHexEncF : n
+
+val sigB64EncF : n
+
+val sigDigBlocksF : n
+
+val res_flag : byte -> n
+
+type scs = { c_sig : n; c_sep : n; c_sepno : n; c_hexm : n; c_hexc : 
+             n; c_hexb : n; c_b64 : bool; c_hex : bool; c_dec : bool;
+             c_lo : bool; c_up : bool; c_skip : n }
+
+val scs0 : scs
+
+val close_block : scs -> scs
+
+val is_hexl : byte -> bool
+
+val b64r : byte -> bool
+
+val scs_step : n -> n -> n -> n -> byte -> bool -> scs -> scs
+
+val scs_loop : n -> n -> n -> n -> byte list -> scs -> scs
+
+val str_chars_sig : byte list -> n -> n -> n * n
+
+val str_sig0 : byte list -> n
+
+val callid_sig_at : bool -> n -> n -> byte list -> n * n
+
+val str_branch : byte list
+
+val str_brprefix : byte list
+
+val viabr_flags : n
+
+val index_of : byte -> byte list -> n -> n option
+
+val viabr_loop : nat -> byte list -> n -> (n * n) option
+
+val viabr_sig_len : byte list -> (n * n) option
+
+val viabr_sig0 : byte list -> n
+
 type 's obj = { ob_parse : (n -> byte list -> n -> 's -> 's res);
                 ob_reset : ('s -> 's); ob_obs : ('s -> z list) }
 
